@@ -121,12 +121,12 @@ UNDECIDED = {
     ],
     'C02': ["precedence / associativity / parentheses (shape of the eight mutually recursive evaluator tiers over &mut Interpreter): undecided - CBMC cannot execute a 5-token expression through Interpreter, Verus cannot type the evaluators", "ABS / INT (closures in evaluate_function_call), ^ values (powf), PRINT number formatting (f64 Display): undecided", "* and / values beyond the stated small-integer domain: the SAT back end does not decide two 64-bit float multiplier circuits in budget"],
     'C01': ["panic-freedom is decided for the statement and expression evaluators (units statements, expressions) except evaluate_user_defined_function_call, evaluate_print_statement, end_loop, next_data_element, which enter as assumed contracts; for the tokenizer it is decided for the driver, the punctuation / blank / identifier matchers; string-literal, numeral, REM, DATA matchers and the DATA item parser are undecided", "native stack exhaustion by nested parentheses: no stack model in either tool", "get_line_with_pointer_caret (fmt): undecided"],
-    'C03': ["statement dispatch, IF/ELSE token skipping, FOR/NEXT arithmetic in doubles (end_loop), DIM/array statements: undecided", "the IF..THEN GOSUB..ELSE defect named in the property lives in statement.rs and cannot be seen by this check"],
+    'C03': ["statement dispatch as a whole, the IF false-branch scan's choice of clause, FOR/NEXT arithmetic in doubles (end_loop), DIM/array statements: undecided; decided pieces of the anchored mechanisms only - this is not a differential check against a reference interpreter", "IF/ELSE interplay: decided for GOSUB (a GOSUB directly followed by ELSE does not return in front of it); a FOR in a THEN clause that has an ELSE is not covered"],
     'C05': ["SourceFileAnalyzer::run (enumerate/zip, tokenizer) - where the two known panics are - is outside both tools: this check cannot report them", "that registered token ranges lie within the line on char boundaries is C13's claim (not applicable)", "per-line token lists, symbol-warning mapping with unwrap: undecided"],
     'C13': ["the complex matchers (keywords via chomp_any_keyword, string literals, numerals, REM, DATA, identifiers) enter as ASSUMED contracts (decline without moving / consume a non-empty in-line stretch / fail without moving with an in-line position); chomp_keyword and chomp_number are checked against them by Kani for bounded input lengths, the others not at all", "character boundaries, ranges ENDING on a non-blank byte for every token kind, REM/DATA extending to the end of their text, and the re-tokenization clause (tokenizing the text of a range yields that one token) are undecided", "remaining_tokens / remaining_tokens_and_ranges (for-loops over `&mut self` as an iterator) are outside Verus; the ordering lemma is stated for two consecutive next() calls"],
     'C12': ["identifier scanning with keyword lookahead, numerals, DATA items (String::from_utf8, str::parse, trim) and the composition in Tokenizer::next: undecided, including the `DATA \"a\" :` defect"],
     'C06': ["statement-level agreement (assignment / FOR / NEXT / READ kind checks in statement_analyzer.rs vs statement.rs) and the converse direction need both evaluators executed: undecided", "operand parsing below the unary tier (evaluate_parenthesized_expression: terms, calls, array subscripts) is an assumed contract", "termination of the tier loops is not claimed (exec_allows_no_decreases_clause)"],
-    'C08': ["the THEN/ELSE interplay (an INPUT inside THEN resumes in front of ELSE, which is then a syntax error) is intended-behaviour-adjacent: the suite requires UNEXPECTED TOKEN for an ELSE reached as a statement; not decided, not reported", "EXTRA IGNORED / REENTER records are appended by evaluate_input_statement (proved to keep the state well formed) but their exact conditions are not specified here", "reply parsing (parse_data_until_colon) is the DATA item parser: an uninterpreted function of the text"],
+    'C08': ["THEN/ELSE interplay: decided as `a resumed INPUT is not left in front of an ELSE` (an ELSE reached as a statement stays UNEXPECTED TOKEN, as the suite requires for multi-statement THEN clauses)", "EXTRA IGNORED / REENTER records are appended by evaluate_input_statement (proved to keep the state well formed) but their exact conditions are not specified here", "reply parsing (parse_data_until_colon) is the DATA item parser: an uninterpreted function of the text"],
     'C19': ["the page script (abasic-web/ts/main.ts) is TypeScript: its protocol is an assumption, transliterated in L_page_protocol; the start-up loader (start_evaluating per line with no error check in between) violates the adapter's precondition when a line fails - outside this check's reach", "Interpreter::start_evaluating / evaluate_impl contract is assumed (AsRef<str>, Tokenizer)", "output record text (Display) and error text + caret: fmt, undecided"],
     'C07': ["expression evaluation (user-defined function calls included) is proved to hand the call stack back as it found it, on success and on failure (unit expressions, after normalisation N9 of the argument loop's `.enumerate()`); the statement evaluator sees the expression evaluator through an assumed contract that does not yet repeat this clause", "transparency itself (same output / input requests / outcome as the uninterrupted run) is concluded from the per-call facts - break records the location and keeps stack, loops, DATA cursor, functions; CONT restores exactly that; idle transitions keep pending reply and output - not proved as a statement about two runs", "that STOP and the host break both reach Program::break_at_current_location (statement.rs:28, interpreter.rs:115) is read, not proved"],
     'C09': ["the expression evaluator is an assumed contract (a successful expression only moves the cursor forward on its line); user-defined function calls inside expressions are therefore outside the per-call work bound, as the property itself allows", "READ's loop over its variable list and PRINT's loop are not given a termination measure (partial correctness)"],
